@@ -13,7 +13,7 @@ MC_CFG = """CONSTANTS
   Faults = {%s}
   Dev = {}
 SPECIFICATION Spec
-INVARIANTS ExecOnlyUnderFilter FailureExitsNonZeroWithoutTarget WholeFileEnforced HappyPathRuns TraceOrder
+INVARIANTS ExecOnlyUnderFilter FailureExitsNonZeroWithoutTarget WholeFileEnforced HappyPathRuns TraceOrder PolicyAsWritten
 CHECK_DEADLOCK FALSE
 """ % ", ".join('"%s"' % f for f in FAULTS)
 TRACE_CFG = """CONSTANTS
@@ -71,7 +71,7 @@ BIG_TAILS_BAD = {"unknownsyscall": "  - action: errno\n    names:\n    - verif_n
                  "unknownaction": "  - action: permit\n    names:\n    - security\n"}
 
 
-def run_sandbox(d, scratch, fault, idx, nnp=True, uid=0, strace=False, policy_text=None, probes=None):
+def run_sandbox(d, scratch, fault, idx, nnp=True, uid=0, strace=False, policy_text=None, probes=None, fatal=None):
     pol = os.path.join(scratch, "pol_%s_%d.yml" % (fault, idx))
     with open(pol, "w") as f:
         f.write(policy_text or policy_for(fault))
@@ -100,11 +100,14 @@ def run_sandbox(d, scratch, fault, idx, nnp=True, uid=0, strace=False, policy_te
         st = os.path.join(scratch, "strace_%s_%d.txt" % (fault, idx))
         args = ["strace", "-f", "-X", "raw", "-e", "trace=seccomp,execve,exit_group", "-o", st] + args
     env = {"PATH": "/usr/bin:/bin", "VERIF_MARKER": marker, "HOME": "/"}
+    if fatal:
+        env["VERIF_FATAL_PROBE"] = fatal
     try:
         p = subprocess.run(args, capture_output=True, text=True, timeout=60, env=env, cwd="/", **kw)
     except subprocess.TimeoutExpired:
         return None
     return {"fault": fault, "rc": p.returncode, "stdout": p.stdout, "stderr": p.stderr[-400:], "marker": os.path.exists(marker), "strace": st,
+            "sigsys": p.returncode in (-31, 159) or "SIGSYS" in p.stderr or "bad system call" in p.stderr,
             "target": target, "nnp": nnp, "uid": uid}
 
 
@@ -295,6 +298,40 @@ def check(ctx, replay=None):
                  {"policy": abstract_yaml(c["pol"], sys)})
         elif len(set(want)) > 1:
             ctx.cov["distinct_nontrivial"] += 1
+    # (d) every action, as the default and as a group's action, observed natively (Sandbox!Observes): the policy allows every
+    #     system call of the table by name except the probe calls, so that the Go runtime of sandbox and target is not hit
+    rc, o, e = ctx.run([os.path.join(ctx.harness(), "archdump")], input="[]", timeout=120)
+    if rc != 0:
+        raise vlib.Machinery("archdump failed: " + e[-500:])
+    table = [a for a in json.loads(o.strip().splitlines()[-1])["arches"] if a["var"] == "X86_64"][0]
+    probe_names = {n for n, _ in cmdfam.PROBES}
+    others = sorted(n for n in table["names"] if n not in probe_names)
+    allow_all = "  - action: allow\n    names:\n" + "".join("    - %s\n" % n for n in others)
+    observes = {"allow": "returned:38", "log": "returned:38", "trace": "returned:38", "errno": "returned:1", "kill_thread": "thread-gone",
+                "kill_process": "SIGSYS", "trap": "SIGSYS"}
+    for k, (default, gact) in enumerate([(a, None) for a in sorted(observes)] + [("errno", a) for a in sorted(observes) if a != "errno"] + [("allow", "kill_thread")]):
+        text = "seccomp:\n  default_action: %s\n  syscalls:\n" % default + allow_all + "  - action: errno\n    names:\n    - tuxcall\n"
+        if gact:
+            text += "  - action: %s\n    names:\n    - security\n" % gact
+        res = run_sandbox(d, scratch, "none", 3000 + k, policy_text=text, probes=["184"], fatal="185:1:2:3")
+        if res is None:
+            ctx.skip("sandbox run timed out")
+            continue
+        ctx.cov["evaluations"] += 1
+        ctx.cov["distinct_nontrivial"] += 1
+        want = observes[gact or default]
+        lines = [l for l in res["stdout"].strip().splitlines() if l.startswith("{")]
+        got = None
+        if res["sigsys"]:
+            got = "SIGSYS"
+        elif len(lines) >= 2:
+            got = json.loads(lines[-1]).get("fatal")
+        if res["rc"] != 0 and not res["marker"]:
+            ctx.note("an allow-all-but-probes policy (default %s) was refused by the sandbox (rc %d): %s" % (default, res["rc"], res["stderr"][-120:]))
+        elif got != want:
+            viol("default_action %s%s: a call the policy answers with %s is observed by the target as %s, expected %s (rc %d)"
+                 % (default, ", group action %s" % gact if gact else "", gact or default, got, want, res["rc"]), res,
+                 {"policy": "default_action: %s; allow: every table name except the probe calls; errno: tuxcall%s" % (default, "; %s: security" % gact if gact else "")})
     ctx.sample({"fault_runs": idx, "trace_sample": traces[0][1] if traces else None})
     ctx.cov["rule"] = ("every failure point (%s) x -no-new-privs x {root, nobody}: exit status and a marker file the target creates first; strace -f event sequences "
                        "validated by SandboxTrace.tla; the shipped-style policies and %d policies of the compiler scope `many` rendered as documented YAML, the target probing "
